@@ -13,8 +13,8 @@ def run(ctx):
                        "valid-value case: real values through the field's selector, Put of a deeply-equal-but-distinct value, of other content, of the zero value, over the zero value, "
                        "field bits / Get / frame compared afterwards (direct oracle only, no model side: the byte-memory model has no identity); "
                        "non-trivial = tuple containing a focus at embedding depth >= 1 or at a non-zero offset, valid-value case whose deeply equal pair are distinct objects; "
-                       "distinct by (shape s-expression, request)")
-    ctx.assumptions += ["gc/amd64 struct layout and reflect's field description are modelled (Model/Layout), validated against the compiler on every generated shape (C03 harness)",
+                       "distinct by (shape s-expression, request)" + S.TWIN_RULE)
+    ctx.assumptions += [S.TWIN_ASSUMPTION, "gc/amd64 struct layout and reflect's field description are modelled (Model/Layout), validated against the compiler on every generated shape (C03 harness)",
                         "memory is a byte map; a value of type A is size(A) bytes; GC, write barriers and memory outside the guard areas are outside the model",
                         "ForProduct1..9/ForSpectrum1..9 are modelled as one list function (deriveN) and exercised at all nine arities on every shape",
                         "derivation by type identifies a type by import path + name (GoType equality stands for String()== && AssignableTo); a fraction of the shapes lists distinct types that reflect prints identically, the decoy before and after the focus, of smaller, larger and equal size - see distribution.colliding_types"]
@@ -42,6 +42,8 @@ def run(ctx):
             ctx.count(S.sexpr(sh.type) + "|" + req, nontrivial=deep or nonzero)
             ctx.hist("arity", meta["n"])
             ctx.hist("family", meta["fam"] + "/" + meta["mode"])
+            if sh.twins:
+                ctx.hist("same_printing_container_derivation", "container unfolded first" if sh.twin_pos == 0 else "after a same-printing container (%s)" % sh.twin_relation)
             ctx.hist("focus_depth", max(len(sh.listing[i]["path"]) for i in meta["entries"]) - 1)
             for i in meta["entries"]:
                 t = S.strip(sh.listing[i]["type"])
